@@ -1,6 +1,16 @@
 """Property -> rule groups. Each entry runs the rule instances that decide a clause of that
 property on the current tree; the explanation and the undecided clauses go to the evidence."""
-from .rules import form, split, shape, flag, valid
+from .rules import form, split, shape, flag, valid, verify, cand, once
+
+def _g(ctx, fn, *a, **k):
+    """run one rule group; a group that can no longer recognise the source is recorded (exit 2) without
+    hiding what the other groups find"""
+    from . import AnalysisError
+    try:
+        fn(ctx, *a, **k)
+    except AnalysisError as e:
+        ctx.errors.append('%s: %s' % (fn.__module__.split('.')[-1], e))
+
 
 ALL5 = ['COSINE', 'DICE', 'EDIT_DISTANCE', 'JACCARD', 'OVERLAP']
 SET4 = ['COSINE', 'DICE', 'JACCARD', 'OVERLAP']
@@ -8,52 +18,77 @@ SET_JOINS = ['cosine', 'dice', 'jaccard', 'overlap', 'overlap_coefficient']
 
 
 def c01(ctx):
-    form.run(ctx, SET4, 'safe')
-    split.run(ctx)
+    _g(ctx, form.run, SET4, 'safe')
+    _g(ctx, cand.run, unique=False, provenance=False)
+    _g(ctx, once.run)
+    _g(ctx, split.run)
+    _g(ctx, verify.run, kinds=['set', 'oc', 'count'], opmap=False, simtable=False)
 
 
 def c02(ctx):
-    shape.run(ctx, builders=True, cross=False, ids=False)
+    _g(ctx, verify.run, kinds=['set', 'oc', 'count'])
+    _g(ctx, shape.run, builders=True, cross=False, ids=False)
+    _g(ctx, cand.run, slices=False, provenance=False, window=False, prune=False, consume=False)
 
 
 def c03(ctx):
-    form.run(ctx, ['EDIT_DISTANCE'], 'safe')
-    flag.run(ctx, joins=['edit_distance'], f4=False)
+    _g(ctx, form.run, ['EDIT_DISTANCE'], 'safe')
+    _g(ctx, flag.run, joins=['edit_distance'], f4=False)
+    _g(ctx, verify.run, kinds=['edit'], window=True)
+    _g(ctx, cand.run, window=False, prune=False, consume=False)
 
 
 def c04(ctx):
-    form.run(ctx, ALL5, 'safe')
+    _g(ctx, form.run, ALL5, 'safe')
+    _g(ctx, cand.run)
+    _g(ctx, once.run)
+
+
+def c05(ctx):
+    _g(ctx, verify.run, kinds=['matcher'], simtable=False)
+    _g(ctx, shape.run, builders=True, cross=False, ids=False)
+    _g(ctx, split.run)
+    _g(ctx, once.run, which=[], appends=True)
+
+
+def c06(ctx):
+    _g(ctx, verify.run, kinds=['count'], simtable=False)
+    _g(ctx, cand.run, slices=False, window=False, prune=False, consume=False)
+    _g(ctx, split.run)
+    _g(ctx, once.run, which=['InvertedIndex.build'], appends=True)
 
 
 def c08(ctx):
-    shape.run(ctx, builders=True, cross=True, ids=False)
+    _g(ctx, shape.run, builders=True, cross=True, ids=False)
 
 
 def c10(ctx):
-    split.run(ctx)
-    shape.run(ctx, builders=False, cross=False, ids=True)
+    _g(ctx, split.run)
+    _g(ctx, shape.run, builders=False, cross=False, ids=True)
 
 
 def c11(ctx):
-    shape.run(ctx)
+    _g(ctx, shape.run)
 
 
 def c12(ctx):
-    flag.run(ctx)
+    _g(ctx, flag.run)
 
 
 def c13(ctx):
-    form.run(ctx, ALL5, 'safe')
+    _g(ctx, form.run, ALL5, 'safe')
+    _g(ctx, verify.run, ni=True, simtable=False)
 
 
 def c14(ctx):
-    form.run(ctx, ['COSINE', 'DICE', 'JACCARD', 'EDIT_DISTANCE'], 'tight',
+    _g(ctx, form.run, ['COSINE', 'DICE', 'JACCARD', 'EDIT_DISTANCE'], 'tight',
              funcs=['get_size_lower_bound', 'get_size_upper_bound'])
+    _g(ctx, cand.run, slices=True, unique=False, provenance=True, window=True, prune=True, consume=False)
 
 
 def c15(ctx):
-    valid.run(ctx)
-    flag.run(ctx, f4=False)
+    _g(ctx, valid.run)
+    _g(ctx, flag.run, f4=False)
 
 
 PROPS = {
@@ -65,6 +100,10 @@ PROPS = {
                  'two strings, inclusive length window.'),
     'C04': (c04, 'Filters apply the reference bounds in the safe direction and drop only under the guards their '
                  'technique defines.'),
+    'C05': (c05, 'apply_matcher keeps a candidate row iff the comparison on sim_function(left value, right value) '
+                 'holds (or it is missing and allow_missing), emits that score and the row\'s own _id, in order.'),
+    'C06': (c06, 'OverlapFilter emits a probed candidate iff comp(overlap count, overlap_size); filter_candset appends '
+                 'exactly one mask entry per candidate row.'),
     'C08': (c08, 'Missing values: rows with a missing join value are dropped before indexing, missing pairs are '
                  'generated once with the header layout (NaN score), filter_pair/matcher test isnull first.'),
     'C10': (c10, 'Serial and parallel twins do the same per-row work on a contiguous partition of the probe side; '
@@ -87,6 +126,8 @@ UNDECIDED = {
     'C03': ['count-filter bound over q-gram bags', 'Levenshtein implementation', 'Cython path'],
     'C04': ['prefix-filter lemma', "suffix filter's recursive Hamming estimate (_est_hamming_dist_lower_bound, "
             "_partition, _binary_search) is algorithmic, not structural: undecided", 'Cython path'],
+    'C05': ['pandas itertuples/zip semantics (trusted)', 'what sim_function returns'],
+    'C06': ['that counting postings equals set overlap for bag tokenizers (excluded by the property)'],
     'C08': ['pandas isnull/dropna semantics (trusted)'],
     'C10': ['invariance under row permutation as such', 'joblib scheduling'],
     'C11': ['pandas DataFrame construction semantics (trusted)'],
@@ -105,6 +146,8 @@ TECHNIQUE = {
     'C02': 'static analysis: abstract interpretation of row/header layouts per None/empty scenario (ast)',
     'C03': 'static analysis: formula normal forms + tokenizer-flag typestate over the CFG (ast)',
     'C04': 'static analysis: formula normal forms + decision tables compared as Boolean functions (ast)',
+    'C05': 'static analysis: path enumeration of the matcher loop body with symbolic substitution; row layouts',
+    'C06': 'static analysis: comparator-guard path analysis of OverlapFilter; once-per-row mask append; provenance',
     'C08': 'static analysis: row-layout abstract interpretation incl. missing-value handler and cross-frame headers',
     'C10': 'static analysis: twin-call argument comparison, symbolic contiguity of split_table, CFG dominance of _id',
     'C11': 'static analysis: row-layout abstract interpretation (cells aligned with header cells by side/attribute)',
